@@ -22,6 +22,9 @@ def main():
     import xsd2lean
     r5 = xsd2lean.generate(os.path.join(GEN, 'XsdPairs.lean'))     # also writes Gen/XsdClosed.lean
     print('generated:', {'XsdPairs': {k: r5[k] for k in list(r5)[:6] if not isinstance(r5[k], (list, dict))}})
+    import xsd_versions
+    r5v = xsd_versions.generate(os.path.join(GEN, 'XsdVersions.lean'))
+    print('generated:', {'XsdVersions': {f: d['features'] for f, d in r5v['families'].items()}})
     import gen_geo
     r6 = gen_geo.generate(os.path.join(GEN, 'Geo.lean'))
     print('generated:', {'Geo': r6['unsupported']})
